@@ -189,7 +189,13 @@ def run_sequence(ctx, comps, ops, replay):
         try:
             real.sol.maps_all_pins()
             spec.raise_all()
+            real.last_solve = None
             ok, msg = wiring.solve_and_compare(real, spec)
+            if ok and real.last_solve is not None and replay:
+                try:
+                    wiring.model_solve_compare(ctx, comps, executed, [(len(executed) - 1,) + real.last_solve], "C16.model.wiring-solve", dict(replay, executed=executed))
+                except Exception as e:  # noqa
+                    ctx.disagreement("C16.model.wiring-solve", f"model comparison failed: {type(e).__name__}: {e}", replay)
         except Exception as e:  # noqa
             ok, msg = False, f"completing the circuit raised {type(e).__name__}: {str(e)[:60]}"
         if not ok:
